@@ -336,7 +336,12 @@ pub fn last<T: AsRef<Path>>(path: T) -> RvResult<String> {
 /// assert_eq!(sys::mash("/foo", "/bar"), PathBuf::from("/foo/bar"));
 /// ```
 pub fn mash<T: AsRef<Path>, U: AsRef<Path>>(dir: T, base: U) -> PathBuf {
-    let base = trim_prefix(base, path::MAIN_SEPARATOR.to_string());
+    // Strip every leading separator so the result always stays under `dir`
+    let sep = path::MAIN_SEPARATOR.to_string();
+    let mut base = trim_prefix(base, &sep);
+    while has_prefix(&base, &sep) {
+        base = trim_prefix(base, &sep);
+    }
     let path = dir.as_ref().join(base);
     path.components().collect::<PathBuf>()
 }
